@@ -763,6 +763,19 @@ def ref_flagpred(ctx: Ctx) -> RuleResult:
                             if isinstance(x, ast.Attribute) and is_xn(ctx, ctx.type_of(call, x.value))})
             if not attrs:
                 continue
+            if attrs == ["active"] and isinstance(t, ast.Compare) and len(t.ops) == 1 and isinstance(t.ops[0], (ast.Is, ast.IsNot)):
+                # 'the inner node has no activation of its own': fine when the other case is REFUSED (raise), not skipped
+                from .val import reach_conditions
+
+                refused = False
+                for rs_ in iter_own_nodes(call.node):
+                    if isinstance(rs_, ast.Raise):
+                        rc = reach_conditions(call.node, rs_) or []
+                        if any(norm_src(t2) == norm_src(t) and v2 != v for t2, v2 in rc):
+                            refused = True
+                r.ob(refused, {"inner node with its own activation": "refused (raise)" if refused else "silently left without the outer flag"})
+                if refused:
+                    continue
             okk = attrs == ["setup"] and norm_src(t).startswith("not ") and not v is False
             r.ob(okk, {"node kinds excluded from the outer flag": norm_src(t)})
             if not okk:
@@ -1400,7 +1413,10 @@ def ref_seedact(ctx: Ctx) -> RuleResult:
         if isinstance(n, ast.Assign) and isinstance(n.targets[0], ast.Name) and isinstance(n.value, ast.Compare) \
                 and len(n.value.ops) == 1 and isinstance(n.value.ops[0], ast.In) and "ARG_NAME_ACTIVATE" in norm_src(n.value.left):
             flag = n.targets[0].id
-    r.require(flag is not None, "splice: activation-presence flag not found")
+    direct = any(isinstance(n, ast.Compare) and len(n.ops) == 1 and isinstance(n.ops[0], (ast.In, ast.NotIn)) and "ARG_NAME_ACTIVATE" in norm_src(n.left)
+                 for n in own_walk(sp.block))
+    r.require(flag is not None or direct, "splice: test of the presence of the activation keyword not found")
+    flag = flag or "ARG_NAME_ACTIVATE"
     seeds = [n for n in own_walk(sp.block) if isinstance(n, ast.Call) and isinstance(n.func, ast.Attribute) and n.func.attr == "update"
              and norm_src(n.func.value).endswith("results")]
     r.require(len(seeds) >= 1, "splice: seeding of the outer results not found")
@@ -1409,6 +1425,10 @@ def ref_seedact(ctx: Ctx) -> RuleResult:
         st = _innermost_stmt(f.node, sd)
         tests = [norm_src(t) for t, v in chains.get(id(st), ())]
         mentions = flag in {x.id for x in ast.walk(sd) if isinstance(x, ast.Name)} or any(flag in t for t in tests)
+        # seeding by an explicit loop: the tests around the loop and inside it count as well
+        for lp_ in own_walk(sp.block):
+            if isinstance(lp_, (ast.For, ast.While)) and any(x is sd for x in ast.walk(lp_)):
+                mentions = mentions or any(flag in norm_src(t_) for t_, _v in chains.get(id(lp_), ()))
         r.ob(mentions, {"seeding": norm_src(sd)[:90], "depends on the activation flag": mentions})
         if not mentions:
             r.violate(f"{f.short} splice: inner results are seeded whatever the nested DAG's activation", f.loc(sd),
@@ -1570,10 +1590,19 @@ def ref_unwrap(ctx: Ctx) -> RuleResult:
             if not isinstance(fn, ast.Name):
                 continue
             n += 1
-            unwraps = [x for x in iter_own_nodes(f.node) if isinstance(x, ast.If) and isinstance(x.test, ast.Call)
-                       and dotted(x.test.func) == "isinstance" and dotted(x.test.args[0]) == fn.id and "ExecNode" in norm_src(x.test.args[1])
-                       and any(isinstance(b, ast.Assign) and dotted(b.targets[0]) == fn.id and isinstance(b.value, ast.Attribute)
-                               and b.value.attr == "exec_function" for b in x.body) and x.lineno < call.lineno]
+            # `if isinstance(x, ExecNode): <stored> = x.exec_function` before the construction, where <stored> is the name
+            # handed to the constructor (x itself, or a local that is x in the other case)
+            unwraps = []
+            for x in iter_own_nodes(f.node):
+                if not (isinstance(x, ast.If) and isinstance(x.test, ast.Call) and dotted(x.test.func) == "isinstance"
+                        and len(x.test.args) == 2 and "ExecNode" in norm_src(x.test.args[1]) and x.lineno < call.lineno):
+                    continue
+                subj = dotted(x.test.args[0])
+                takes = any(isinstance(b, ast.Assign) and dotted(b.targets[0]) == fn.id and isinstance(b.value, ast.Attribute)
+                            and b.value.attr == "exec_function" and dotted(b.value.value) == subj for b in x.body)
+                other = subj == fn.id or any(isinstance(b, ast.Assign) and dotted(b.targets[0]) == fn.id and dotted(b.value) == subj for b in x.orelse)
+                if takes and other:
+                    unwraps.append(x)
             refuses = [x for x in iter_own_nodes(f.node) if isinstance(x, ast.If) and "isinstance" in norm_src(x.test) and "ExecNode" in norm_src(x.test)
                        and any(isinstance(b, ast.Raise) for b in x.body) and x.lineno < call.lineno]
             ok = bool(unwraps or refuses)
